@@ -37,10 +37,34 @@ def register(S):
                           "body_events": ["n_callees('_box') == 1 and n_events() == 1"],
                           "snoc_hints": ["app_snoc(acc, x, boxed_list(rest, self))", "plain_snoc(acc, x)"],
                           "exit_hints": ["app_nil(acc)"]}})
-    S.contract(F + "_box_exc", params={"self": "obj:Connection", "typ": "any", "val": "any", "tb": "any"}, result="val",
-               trusted=True,
-               note="ASSUMED (vinegar.dump not yet under contract): returns a plain value describing the exception",
-               ensures={"result_is_plain": ("plain(result)", ["C08", "C09"])}, raises={}, modifies=[])
+    S.declare_fields("Connection", _config="dict")
+    DUMP_PRE = "implies(not isstr(typ), isstr(meta_attr(typ, '__module__')) and isstr(meta_attr(typ, '__name__')))"
+    FROM_CONFIG = ("n_callees('dump') == 1 and n_events() == 1 and same(callee_arg('dump', 0, 'typ'), typ) and "
+                   "same(callee_arg('dump', 0, 'val'), val) and "
+                   "same(callee_arg('dump', 0, 'include_local_traceback'), self._config['include_local_traceback']) and "
+                   "same(callee_arg('dump', 0, 'include_local_version'), self._config['include_local_version'])")
+    S.contract(F + "_box_exc", params={"self": "obj:Connection", "typ": "val", "val": "val", "tb": "val"}, result="val",
+               requires=["haskey(self._config, 'include_local_traceback')", "haskey(self._config, 'include_local_version')", DUMP_PRE],
+               ensures={"result_is_plain": ("plain(result)", ["C08", "C09", "C01"]),
+                        # what is disclosed follows THIS connection's configuration
+                        "disclosure_follows_this_connections_configuration": (FROM_CONFIG, ["C09", "C07"]),
+                        "returns_the_record": ("same(result, callee_result('dump', 0))", ["C09"])},
+               raises={"BaseException": {"props": ["C09", "C08"], "state": [FROM_CONFIG]}}, modifies=[])
+    VCACHE = "global:rpyc.core.vinegar:_generic_exceptions_cache"
+    GCACHE_OK = "generic_cache_ok(module_global('rpyc.core.vinegar', '_generic_exceptions_cache'))"
+    LOAD_FROM_CONFIG = ("n_callees('load') == 1 and n_events() == 1 and same(callee_arg('load', 0, 'val'), raw) and "
+                        "callee_arg('load', 0, 'import_custom_exceptions') == truthy(self._config['import_custom_exceptions']) and "
+                        "callee_arg('load', 0, 'instantiate_custom_exceptions') == truthy(self._config['instantiate_custom_exceptions'])")
+    S.contract(F + "_unbox_exc", params={"self": "obj:Connection", "raw": "val"}, result="val",
+               requires=["plain(raw)", GCACHE_OK] +
+                        ["haskey(self._config, '%s') and isvbool(self._config['%s'])" % (k, k)
+                         for k in ("import_custom_exceptions", "instantiate_custom_exceptions")] +
+                        ["haskey(self._config, 'instantiate_oldstyle_exceptions')"],
+               ensures={"rebuilt_under_this_connections_configuration": (LOAD_FROM_CONFIG, ["C09", "C07"]),
+                        "cache_stays_well_formed": (GCACHE_OK, ["C09", "C08"]),
+                        "returns_the_exception": ("same(result, callee_result('load', 0))", ["C09", "C08"])},
+               raises={"BaseException": {"props": ["C09", "C08"], "state": [LOAD_FROM_CONFIG, GCACHE_OK], "modifies": ["$sysmodules", VCACHE]}},
+               modifies=["$sysmodules", VCACHE])
     register_unbox(S)
 
 
